@@ -1242,7 +1242,7 @@ pub(crate) fn digest(b: &[u8]) -> [u8; 32] {
     output
 }
 
-fn check_spec_reserved_keys(key: &[u8], mut value: &[u8]) -> Result<(), Error> {
+pub(crate) fn check_spec_reserved_keys(key: &[u8], mut value: &[u8]) -> Result<(), Error> {
     match key {
         TCP_ENR_KEY | TCP6_ENR_KEY | UDP_ENR_KEY | UDP6_ENR_KEY => {
             u16::decode(&mut value)?;
